@@ -14,6 +14,7 @@ import (
 	"github.com/cosmos/cosmos-sdk/types/tx/signing"
 	authtypes "github.com/cosmos/cosmos-sdk/x/auth/types"
 	govtypes "github.com/cosmos/cosmos-sdk/x/gov/types"
+	"github.com/cosmos/gogoproto/proto"
 	"github.com/ethereum/go-ethereum/common"
 	ethtypes "github.com/ethereum/go-ethereum/core/types"
 	"github.com/ethereum/go-ethereum/crypto"
@@ -186,6 +187,15 @@ func WrapClaim(chain, wrapperBridger string, claim crosschaintypes.ExternalClaim
 		panic(err)
 	}
 	return &crosschaintypes.MsgClaim{ChainName: chain, BridgerAddress: wrapperBridger, Claim: a}
+}
+
+// WrapConfirm packs a confirmation into MsgConfirm.
+func WrapConfirm(chain, wrapperBridger string, confirm crosschaintypes.Confirm) *crosschaintypes.MsgConfirm {
+	a, err := codectypes.NewAnyWithValue(confirm.(proto.Message))
+	if err != nil {
+		panic(err)
+	}
+	return &crosschaintypes.MsgConfirm{ChainName: chain, BridgerAddress: wrapperBridger, Confirm: a}
 }
 
 // Vote submits one oracle's vote for a claim (the claim is mutated: bridger set).
